@@ -11,6 +11,7 @@ import (
 	"net/http"
 	"net/http/httptest"
 	"net/url"
+	"runtime"
 	"strings"
 	"sync"
 	"testing"
@@ -34,6 +35,9 @@ type c17Req struct {
 	B64       bool   `json:"b64"`
 	JSONP     bool   `json:"jsonp"`
 	HTTP2     bool   `json:"http2"` // the request arrives over HTTP/2 (ProtoMajor 2), as behind TLS; the rules are the same
+	// POST only: the request carries a form-encoded body that names a supported version, the polling transport and the live polling session
+	// (EIO=4&transport=polling&sid=<live>&d=6). The parameters of Engine.IO travel in the query string: the body changes nothing.
+	FormBody bool `json:"form_body"`
 }
 
 // c17Fixture is a server with one live polling session, one live WebSocket session and one closed session.
@@ -226,6 +230,10 @@ func evalC17(fx *c17Fixture, r c17Req) *Failure {
 	createdBefore, closedBefore := fx.snapshot()
 	rec := httptest.NewRecorder()
 	req := httptest.NewRequest(r.Method, r.url(fx), bytes.NewReader(nil))
+	if r.FormBody {
+		req = httptest.NewRequest(r.Method, r.url(fx), strings.NewReader("EIO=4&transport=polling&sid="+fx.pollSID+"&d=6"))
+		req.Header.Set("Content-Type", "application/x-www-form-urlencoded")
+	}
 	if r.HTTP2 {
 		req.Proto, req.ProtoMajor, req.ProtoMinor = "HTTP/2.0", 2, 0
 	}
@@ -340,6 +348,9 @@ func c17Matrix() []c17Req {
 					for _, b64 := range []bool{false, true} {
 						for _, j := range []bool{false, true} {
 							out = append(out, c17Req{Method: m, EIO: v, Transport: tr, SID: sid, B64: b64, JSONP: j})
+							if r := (c17Req{Method: m, EIO: v, Transport: tr, SID: sid, B64: b64, JSONP: j, FormBody: true}); m == "POST" && !r.validTraffic() {
+								out = append(out, r)
+							}
 							if tr != "websocket" { // (a WebSocket upgrade is an HTTP/1.1 matter)
 								out = append(out, c17Req{Method: m, EIO: v, Transport: tr, SID: sid, B64: b64, JSONP: j, HTTP2: true})
 							}
@@ -354,7 +365,7 @@ func c17Matrix() []c17Req {
 
 func TestC17_Matrix(t *testing.T) {
 	ev := NewEv(t, "C17", c17CheckMatrix, "exhaustive request matrix: method {GET,POST,PUT,DELETE,OPTIONS} x EIO {absent,3,4,5,x4,empty} x transport {absent,polling,websocket,junk} x "+
-		"sid {absent,unknown,live polling,live websocket,closed} x b64 x jsonp x {HTTP/1.1, HTTP/2 (non-WebSocket)} = 4200 requests through Server.ServeHTTP against a fixture with live sessions (valid poll/post traffic excluded); "+
+		"sid {absent,unknown,live polling,live websocket,closed} x b64 x jsonp x {HTTP/1.1, HTTP/2 (non-WebSocket)} (+ POSTs with a form-encoded body naming valid parameters) = 4676 requests through Server.ServeHTTP against a fixture with live sessions (valid poll/post traffic excluded); "+
 		"oracle: 400 + protocol JSON error whose code belongs to the invalid aspects, NewSocketCallback not invoked, no session closed, both live sessions still work afterwards; "+
 		"non-trivial = >= 2 invalid aspects at once")
 	ev.Exhaustive()
@@ -512,18 +523,26 @@ func TestC17_IDs(t *testing.T) {
 
 // ---- requests racing Close --------------------------------------------------------------------------------------------
 
-const c17CheckClose = "c17-close"
+// Run with VERIF_AS=C06 the same check reports under C06: a session created while Server.Close is busy and never closed is a connection whose
+// end is never reported and that is left behind.
+var c17CloseProp, c17CheckClose = func() (string, string) {
+	if envStr("VERIF_AS", "") == "C06" {
+		return "C06", "c06-engine-close-race"
+	}
+	return "C17", "c17-close"
+}()
 
 type c17CloseCase struct {
-	Handshakers int  `json:"handshakers"`
-	PerG        int  `json:"per_goroutine"`
-	CloseAfter  int  `json:"close_after"` // Close is called once this many handshakes have started
-	Yield       bool `json:"yield"`       // park handshakes at the hook before store.set while Close runs
+	Handshakers     int  `json:"handshakers"`
+	PerG            int  `json:"per_goroutine"`
+	CloseAfter      int  `json:"close_after"`       // Close is called once this many handshakes have started
+	Yield           bool `json:"yield"`             // park handshakes at the hook before store.set while Close runs
+	SlowCloseYields int  `json:"slow_close_yields"` // every session's close callback yields the processor that often, so Close is still busy while handshakes arrive
 }
 
 func evalC17Close(c c17CloseCase) (*Failure, bool) {
 	fail := func(clause, detail string) *Failure {
-		return &Failure{Property: "C17", Check: c17CheckClose, Clause: clause, Class: fmt.Sprintf("yield=%v", c.Yield), Detail: detail, Case: c}
+		return &Failure{Property: c17CloseProp, Check: c17CheckClose, Clause: clause, Class: fmt.Sprintf("yield=%v", c.Yield), Detail: detail, Case: c}
 	}
 	var res *Failure
 	raced := false
@@ -536,7 +555,14 @@ func evalC17Close(c c17CloseCase) (*Failure, bool) {
 			mu.Lock()
 			created[id] = s
 			mu.Unlock()
-			return &eio.Callbacks{OnClose: func(eio.Reason, error) { mu.Lock(); closed[id]++; mu.Unlock() }}
+			return &eio.Callbacks{OnClose: func(eio.Reason, error) {
+				mu.Lock()
+				closed[id]++
+				mu.Unlock()
+				for i := 0; i < c.SlowCloseYields; i++ {
+					runtime.Gosched() // the application's close handler takes a while (no virtual time: a sleeping handler would freeze the bubble's clock, DESIGN.md §2.2): Close lasts, handshakes keep arriving
+				}
+			}}
 		}, nil)
 		_ = srv.Run()
 		started := 0
@@ -632,12 +658,13 @@ func evalC17Close(c c17CloseCase) (*Failure, bool) {
 
 func TestC17_CloseRace(t *testing.T) {
 	setT(t)
-	ev := NewEv(t, "C17", c17CheckClose, "rapid (virtual time): 1..8 goroutines x 1..6 handshakes while Server.Close runs after the k-th handshake started; with the yield hook a handshake that "+
+	ev := NewEv(t, c17CloseProp, c17CheckClose, "rapid (virtual time): 1..8 goroutines x 1..6 handshakes while Server.Close runs after the k-th handshake started, the sessions' close callbacks optionally busy for 200 / 5000 scheduler yields; with the yield hook a handshake that "+
 		"passed the closed check is parked before store.set until Close has finished; oracle: every created session gets exactly one close callback, nothing is admitted after Close returned; "+
 		"non-trivial = a handshake was parked across Close")
-	rapidGuard(t, "C17", c17CheckClose)
+	rapidGuard(t, c17CloseProp, c17CheckClose)
 	runRapid(t, c17CheckClose, tierN(1200, 20000), func(t *rapid.T) {
-		c := c17CloseCase{Handshakers: rapid.IntRange(1, 8).Draw(t, "g"), PerG: rapid.IntRange(1, 6).Draw(t, "per"), Yield: rapid.Bool().Draw(t, "yield")}
+		c := c17CloseCase{Handshakers: rapid.IntRange(1, 8).Draw(t, "g"), PerG: rapid.IntRange(1, 6).Draw(t, "per"), Yield: rapid.Bool().Draw(t, "yield"),
+			SlowCloseYields: rapid.SampledFrom([]int{0, 0, 200, 5000}).Draw(t, "slowClose")}
 		c.CloseAfter = rapid.IntRange(1, c.Handshakers*c.PerG).Draw(t, "closeAfter")
 		f, raced := evalC17Close(c)
 		ev.Case(c, raced, fmt.Sprintf("yield=%v", c.Yield))
